@@ -43,7 +43,22 @@ def cases(rng, tier):
         t = gen_tensor(rng, shape, stream=stream)
         steps = []
         for _ in range(rng.randint(1, maxlen)):
-            steps.append({"key": gen_akey(rng, shape), "vk": rng.choice(VALUE_KINDS), "vseed": rng.randrange(1 << 30)})
+            key = gen_akey(rng, shape)
+            r = rng.random()
+            if r < 0.08:
+                # malformed stream: an integer outside [-n, n) on some mode (must raise, tensor unchanged)
+                pos = [i for i, k in enumerate(key) if k[0] in ("i", "s")]
+                if pos:
+                    i = rng.choice(pos)
+                    # the mode this entry addresses (entries before an Ellipsis count from the left, after it from the right)
+                    e = [j for j, k in enumerate(key) if k[0] == "e"]
+                    m = i if (not e or i < e[0]) else N - (len(key) - i)
+                    n_m = shape[m]
+                    key[i] = ["i", n_m + rng.randint(0, 2)] if rng.random() < 0.5 else ["i", -n_m - 1 - rng.randint(0, 2)]
+            elif r < 0.11:
+                # malformed stream: more entries than modes
+                key = [k for k in key if k[0] != "e"] + [["i", 0]] * (N + 1 - len([k for k in key if k[0] != "e"]))
+            steps.append({"key": key, "vk": rng.choice(VALUE_KINDS), "vseed": rng.randrange(1 << 30)})
         out.append({"t": t.to_json(), "steps": steps, "stream": stream})
     return out
 
@@ -65,7 +80,32 @@ def run_case(ctx, case):
         key = st["key"]
         pk = py_key(key)
         vrng = random.Random(st["vseed"])
-        sshape = shadow[pk].shape
+        try:
+            sshape = shadow[pk].shape
+        except IndexError:
+            # ---- an assignment NumPy itself refuses (index out of range / too many indices): must raise and leave t unchanged
+            ctx.count("invalid_key")
+            kinds_hist.append((tuple(k[0] for k in key), "invalid"))
+
+            def bad():
+                tt[pk] = 1.5
+            res = safe(bad)
+            after = safe(lambda: tt.torch().detach().double().numpy())
+            if res[0] != "err":
+                ctx.oracle("step %d: t[%s] = 1.5 on shape %s did not raise (NumPy: IndexError)%s" % (
+                    si, pk, list(shadow.shape), "" if (after[0] == "ok" and close(after[1], shadow, 1e-9)[0]) else " and the tensor was modified"),
+                    case, cls={"op": "setitem", "predicate": "invalid key accepted"})
+                break
+            if after[0] == "err" or not close(after[1], shadow, 1e-9)[0]:
+                ctx.oracle("step %d: rejected assignment t[%s] left the tensor modified" % (si, pk), case,
+                           cls={"op": "setitem", "predicate": "error left tensor modified"})
+                break
+            if use_model:
+                toks = ctx.drv().call("setitem_scalar %s %s %s" % (q(1.5), ser_key(key), mt.ser()))
+                if toks[0] == "ok":
+                    ctx.corr("step %d: the model accepts the invalid key %s that the implementation rejects" % (si, pk), case); break
+                ctx.count("invalid_key:model_agrees:" + " ".join(toks[1:2]))
+            continue
         vk = st["vk"]
         kinds = tuple(k[0] for k in key)
         kinds_hist.append((kinds, vk))
